@@ -375,6 +375,31 @@ def run(prog, tier):
             obs.append(formula_ob("temper", qual(c, fn), coeff, want, c.module.relpath, call.lineno,
                                   what=f"coefficient of posterior(...) in `{U(holder)}` (exactly one temperature factor)"))
 
+    # ---------------------------------------------------------------- the factor itself: inv_temp is 1 / temperature where it is set
+    from ..term import Resolver as _Rz, anf_of as _anf_of, abstract as _abstract
+    n_def = 0
+    for cname in mcmc.SAMPLERS:
+        ci = prog.cls(cname)
+        init_ = ci.methods.get("__init__")
+        if init_ is None:
+            continue
+        tpar = [a.arg for a in init_.args.args + init_.args.kwonlyargs if a.arg in ("temperature", "temp", "T")]
+        for st_ in ast.walk(init_):
+            if isinstance(st_, ast.Assign) and len(st_.targets) == 1 and U(st_.targets[0]) == "self.inv_temp":
+                n_def += 1
+                t_ = _Rz(init_, prog, ci.module, ci).term(st_.value, st_)
+                okd = False
+                if tpar:
+                    try:
+                        okd = _anf_of(t_).eq(R.const(1) / R.sym(tpar[0]))
+                    except Unsupported:
+                        okd = False
+                obs.append(struct_ob("temper", qual(ci, init_) + "[definition]", okd,
+                                     f"inv_temp must be 1 / {tpar[0] if tpar else 'temperature'} (the chain targets posterior^(1/T)); it is `{U(t_)[:80]}`",
+                                     ci.module.relpath, st_.lineno, tier="F"))
+    if n_def < 2:
+        raise AnalysisError(f"anchor vanished: definitions of self.inv_temp in the sampler constructors ({n_def} found)")
+
     # ---------------------------------------------------------------- proposals
     obs.extend(_proposals(prog))
     obs.extend(_stretch(prog))
